@@ -268,6 +268,11 @@ class Repo:
         t = stmt.targets[0]
         if isinstance(t, ast.Name):
           mi.assigns[t.id] = stmt.value
+          # a module-level tuple of exception classes is an alias a handler may name (`except _ERRORS:`)
+          if isinstance(stmt.value, ast.Tuple) and stmt.value.elts and all(
+              isinstance(e, (ast.Name, ast.Attribute)) for e in stmt.value.elts):
+            from mlmverif import cfg as _cfg
+            _cfg.EXC_ALIASES[t.id] = tuple(ast.unparse(e) for e in stmt.value.elts)
       elif isinstance(stmt, ast.AnnAssign) and stmt.value is not None:
         if isinstance(stmt.target, ast.Name):
           mi.assigns[stmt.target.id] = stmt.value
